@@ -397,6 +397,9 @@ func (in *Interp) equalTerm(t types.Type, x, y Value) *Term {
 	case RType:
 		yv, ok := y.(RType)
 		return in.mkBool(ok && types.Identical(xv.t, yv.t))
+	case StubObj:
+		yv, ok := y.(StubObj)
+		return in.mkBool(ok && xv == yv)
 	case BigVal:
 		panic(unsupported{"== on big.Int struct values"})
 	case nil:
@@ -570,6 +573,8 @@ func (in *Interp) typeAssert(instr *ssa.TypeAssert, x Value) Value {
 		if itf.t != nil {
 			if _, isR := itf.v.(RType); isR {
 				ok = idst.NumMethods() == 0 || isNamed(instr.AssertedType, "reflect", "Type")
+			} else if _, isS := itf.v.(StubObj); isS {
+				ok = true
 			} else {
 				ok = in.implements(itf.t, idst)
 			}
@@ -1174,6 +1179,8 @@ func (in *Interp) callBuiltin(fr *frame, b *ssa.Builtin, args []Value, site *ssa
 		return r
 	case "recover":
 		return in.doRecover(fr)
+	case "ssa:deferstack":
+		return nil
 	case "ssa:wrapnilchk":
 		if p, ok := args[0].(*Ptr); ok && IsNilPtr(p) {
 			in.goPanic("value method called using nil pointer")
